@@ -362,7 +362,8 @@ def rule_phis_and_locals(ctx):
         ctx.missing(R, "ssa_impl::visit_expression")
     else:
         ms = [m for m in walk(f["body"]) if m["k"] == "Match" and render(strip(m["scrut"])) == "expr"]
-        for variant, nm in (("Variable", "name"), ("Access", "var"), ("Update", "var")):
+        decided_r = eval_renaming(ctx, R, f)
+        for variant, nm in ((("Variable", "name"), ("Access", "var"), ("Update", "var")) if not decided_r else ()):
             arm = [a for a in ms[0]["arms"] if variant in [last(p) for p in pat_paths(a["pat"])]] if ms else []
             if len(arm) != 1:
                 ctx.missing(R, "visit_expression/" + variant)
@@ -380,6 +381,82 @@ def rule_phis_and_locals(ctx):
                 rt = render(strip(a["r"])).replace(" ", "")
                 rhs = any(rt == "%s.with_version(%s)" % (nm, v_) for v_ in vb) or (not vb and rt == "%s.with_version(version)" % nm)
                 ctx.check(R, "visit_expression/%s/write%d/only-locals-current-version" % (variant, i + 1), ok and cur and rhs, "versioned under %s" % cs, site(SI, a))
+
+
+def eval_renaming(ctx, R, f):
+    """the SSA renaming of one expression node, evaluated for Variable / Access / Update x (declared local or not) x
+    (the environment has a current version or not): the name is replaced by the current version exactly for locals;
+    a read of a local without a version is the `undefined variable` error; the array read by an element update gets
+    the next fresh version instead.  False when outside the evaluator's subset."""
+    import passeval
+    from finfun import NONE, S, Unsupported
+    from passeval import O, V
+
+    try:
+        w = passeval.PassWorld([IR, SI, "program_structure/src/static_single_assignment/errors.rs"], SI)
+    except Exception:
+        return False
+    w.lenient_opaque = True
+    n = 0
+    bad = {}
+    for variant, fld in (("Variable", "name"), ("Access", "var"), ("Update", "var")):
+        for local in (False, True):
+            for cur in (None, 3):
+                calls_ = {"next": 0, "with": []}
+
+                def with_version(v, calls_=calls_):
+                    calls_["with"].append(v)
+                    return ("O", "name@%s" % (v,))
+
+                name0 = ("O", "name", (("version", NONE), ("with_version", ("PY", with_version)), ("to_string", "name"), ("name", "name")))
+
+                def nxt(nm, calls_=calls_):
+                    calls_["next"] += 1
+                    return 7
+
+                envv = ("O", "environment", (("is_local", ("PY", lambda nm, local=local: local)), ("get_current_version", ("PY", lambda nm, cur=cur: NONE if cur is None else S("Some", cur))), ("get_next_version", ("PY", nxt))))
+                leaf = S("Number", O("leaf-meta"), 0)
+                acc = ("L", (S("ArrayAccess", leaf), S("ComponentAccess", "out")))
+                fields = {"meta": O("meta")}
+                fields[fld] = name0
+                if variant in ("Access", "Update"):
+                    fields["access"] = acc
+                if variant == "Update":
+                    fields["rhe"] = leaf
+                node = V("Expression", variant, **fields)
+                try:
+                    res = w.call_fn(f, [node, envv])
+                except Unsupported as u:
+                    ctx.note("ssa visit_expression is outside the evaluator's subset (%s): shape obligations apply" % u)
+                    return False
+                except passeval.Panic as p_:
+                    bad.setdefault("visit_expression/%s/no-panic" % variant, str(p_))
+                    continue
+                n += 1
+                after = node[3][fld]
+                is_ok = isinstance(res, tuple) and len(res) > 2 and res[0] == "S" and res[1] == "Ok"
+                is_err = isinstance(res, tuple) and len(res) > 2 and res[0] == "S" and res[1] == "Err"
+                key = "visit_expression/%s/versioned-exactly-for-locals" % variant
+                if not local:
+                    ok = is_ok and after is name0 and not calls_["with"] and calls_["next"] == 0
+                    want = "left alone"
+                elif cur is not None:
+                    ok = is_ok and after == ("O", "name@3") and calls_["next"] == 0
+                    want = "renamed to the current version"
+                elif variant == "Update":
+                    ok = is_ok and after == ("O", "name@7") and calls_["next"] == 1
+                    want = "given the next fresh version (first element assignment of an array)"
+                else:
+                    ok = is_err and after is name0 and calls_["next"] == 0
+                    want = "the `undefined variable` error"
+                if not ok:
+                    bad.setdefault(key, "declared local=%s, current version=%s: expected %s; result %s, name now %s, fresh versions taken: %d" % (local, cur, want, res[1] if isinstance(res, tuple) and len(res) > 1 else res, after[1] if isinstance(after, tuple) else after, calls_["next"]))
+    ctx.floor(R, "renaming worlds evaluated", n, 12)
+    for variant in ("Variable", "Access", "Update"):
+        key = "visit_expression/%s/versioned-exactly-for-locals" % variant
+        kp = "visit_expression/%s/no-panic" % variant
+        ctx.check(R, key, key not in bad and kp not in bad, bad.get(key) or bad.get(kp) or "locals get the current version (an element update of a fresh array the next one), everything else is left alone, a local without a version is an error", site(SI, f))
+    return True
 
 
 def key_function(ctx, R):
